@@ -102,11 +102,20 @@ def href_set(interp, env, h, val, extra=()):
 
 
 class Agg:
-    def __init__(self, kind, name, variant, fields):
+    def __init__(self, kind, name, variant, fields, gargs=None):
         self.kind = kind
         self.name = name
         self.variant = variant
         self.fields = list(fields)
+        if gargs is not None:
+            self.gargs = gargs     # instantiated generic arguments of the ADT, where the constructing code is known
+
+    def with_fields(self, fields):
+        """a copy with other fields (keeps the instantiated generic arguments)"""
+        c = Agg(self.kind, self.name, self.variant, fields, getattr(self, "gargs", None))
+        if hasattr(self, "tsubst"):
+            c.tsubst = self.tsubst
+        return c
 
     def __repr__(self):
         return "%s::%s%s" % (self.name, self.variant, self.fields) if self.name else "(%s)" % (self.fields,)
@@ -137,6 +146,18 @@ _STEPS = [0]                 # basic blocks interpreted for the current top-leve
 _STEP_BUDGET = [400000]
 
 
+def tsub(ty, mapping):
+    """type text with the generic parameter names of the enclosing (inlined) body replaced by their instantiation"""
+    if not mapping or not isinstance(ty, str):
+        return ty
+    import re as _re
+    return _re.sub(r"\b[A-Za-z_][A-Za-z0-9_]*\b", lambda m: mapping.get(m.group(0), m.group(0)), ty)
+
+
+# keys of the function bodies the interpreter has entered (root or inlined) in this process: reported as coverage
+EVALUATED_BODIES = set()
+
+
 class Interp:
     def __init__(self, body, oracle, args, max_visits=10, max_paths=4000, facts=None, inline=None, depth=0, max_depth=8):
         """args: list of initial values for _1.._argc (TOP for unknown).
@@ -154,11 +175,16 @@ class Interp:
         self.max_depth = max_depth
         _FID[0] += 1
         self.fid = _FID[0]
+        _fn = getattr(body, "fn", None)
+        if _fn is not None:
+            EVALUATED_BODIES.add(_fn.key)
         self.init_state = {}
         self.mstate = {}   # model state of the path being executed (oracles may read and update it)
         self.inline_siblings = True
         self.root_files = None
         self.dispatch = False    # resolve calls on trait objects by the abstract value's type (virtual dispatch)
+        self.tsubst = {}         # generic parameter name -> type text it is instantiated with in this frame (inlined bodies)
+        self._call_gargs = None  # instantiated generic arguments of the call being inlined
         self.slice_len = None    # hook: length of a modelled slice value
         self.index_hook = None   # hook: indexing into a modelled collection
 
@@ -176,7 +202,7 @@ class Interp:
         if isinstance(v, Ref) and getattr(v, "frame", None) is None:
             return Ref(v.local, v.proj, frame=fid)
         if isinstance(v, Agg) and any(isinstance(x, (Ref, Agg)) for x in v.fields):
-            return Agg(v.kind, v.name, v.variant, [self._tag(x, fid, depth + 1) for x in v.fields])
+            return v.with_fields([self._tag(x, fid, depth + 1) for x in v.fields])
         return v
 
     def read_ref(self, env, ref):
@@ -209,7 +235,7 @@ class Interp:
                 return Ref(v.local, v.proj, frame=self.fid)
             return v
         if isinstance(v, Agg):
-            return Agg(v.kind, v.name, v.variant, [self.freeze(env, x, depth + 1) for x in v.fields])
+            return v.with_fields([self.freeze(env, x, depth + 1) for x in v.fields])
         return v
 
     def resolve_own(self, env, v, depth=0):
@@ -219,7 +245,7 @@ class Interp:
         if isinstance(v, Ref) and (getattr(v, "frame", None) in (None, self.fid)) and not (self.depth == 0):
             return self.resolve_own(env, self._project(env, env.get(v.local, TOP), v.proj), depth + 1)
         if isinstance(v, Agg):
-            return Agg(v.kind, v.name, v.variant, [self.resolve_own(env, x, depth + 1) for x in v.fields])
+            return v.with_fields([self.resolve_own(env, x, depth + 1) for x in v.fields])
         return v
 
     def sibling(self, key):
@@ -285,6 +311,12 @@ class Interp:
         sub = Interp(body, self.oracle, a, self.max_visits, self.max_paths, self.facts, self.inline, self.depth + 1, self.max_depth)
         sub.variant_index = self.variant_index
         sub.dispatch = self.dispatch
+        cg = self._call_gargs
+        self._call_gargs = None
+        if cg is not None:
+            names = [p_["name"] for p_ in (fn.generics or {}).get("params", []) if p_.get("kind") != "lifetime"]
+            if len(names) == len(cg):
+                sub.tsubst = dict(zip(names, cg))
         sub.inline_siblings = self.inline_siblings
         sub.root_files = self.root_files if self.root_files is not None else ({self.body.fn.file} if getattr(self.body, "fn", None) is not None else set())
         sub.slice_len = self.slice_len
@@ -319,6 +351,10 @@ class Interp:
             fn = self.facts.fn_opt(fv.name)
             if fn is None:
                 return None
+            ts = getattr(fv, "tsubst", None)
+            if ts:
+                names = [p_["name"] for p_ in (fn.generics or {}).get("params", []) if p_.get("kind") != "lifetime"]
+                self._call_gargs = [ts.get(n_, n_) for n_ in names]
             return self.call_body(fn, [fv] + list(args))
         if isinstance(fv, tuple) and fv and fv[0] == "fn":
             key = fv[1].get("resolved", {}).get("key") or fv[1].get("key")
@@ -552,7 +588,7 @@ class Interp:
             return self._store(env, base, proj[1:], val)
         if isinstance(e, list) and e[0] == "f":
             if isinstance(base, Agg):
-                nb = Agg(base.kind, base.name, base.variant, base.fields)
+                nb = base.with_fields(base.fields)
                 while len(nb.fields) <= e[1]:
                     nb.fields.append(TOP)
                 nb.fields[e[1]] = self._store(env, nb.fields[e[1]], proj[1:], val)
@@ -728,11 +764,17 @@ class Interp:
             kd = rv[1]
             vals = [self.operand(env, o) for o in rv[2]]
             if kd["k"] == "adt":
-                return Agg("adt", kd["adt"], kd["vname"], vals)
+                a_ = Agg("adt", kd["adt"], kd["vname"], vals)
+                if kd.get("gargs"):
+                    a_.gargs = [tsub(g, self.tsubst) for g in kd["gargs"]]
+                return a_
             if kd["k"] == "tuple":
                 return Agg("tuple", None, None, vals)
             if kd["k"] == "closure":
-                return Agg("closure", kd["closure"], None, vals)
+                c_ = Agg("closure", kd["closure"], None, vals)
+                if self.tsubst:
+                    c_.tsubst = dict(self.tsubst)     # a closure body names its parent's type parameters
+                return c_
             return Agg(kd["k"], None, None, vals)
         return TOP
 
@@ -869,6 +911,11 @@ class Interp:
                     args = [self.operand(env, a) for a in t["args"]]
                     ckey = f.get("resolved", {}).get("key") or f.get("key") or f.get("kind")
                     outs = None
+                    if self.tsubst and (f.get("gargs") or f.get("resolved", {}).get("gargs")):
+                        f = dict(f)
+                        f["cgargs"] = [tsub(g, self.tsubst) for g in (f.get("gargs") or [])]
+                    _rg = f.get("resolved", {}).get("gargs") if f.get("resolved", {}).get("key") else f.get("gargs")
+                    self._inst_gargs = [tsub(g, self.tsubst) for g in (_rg or [])]
                     if f.get("kind") == "fnptr" and "op" in f:
                         f = dict(f)
                         f["fnptr_value"] = self.operand(env, f["op"])   # the function value behind the pointer (fn item, closure or symbol)
@@ -914,6 +961,7 @@ class Interp:
                         if outs is None and f.get("kind") == "def" and self.facts is not None and self.sibling(ckey):
                             cf = self.facts.fn_opt(ckey)
                             if cf is not None:
+                                self._call_gargs = self._inst_gargs
                                 outs = self.call_body(cf, fargs)
                         if outs is None and f.get("kind") == "def" and self.inline and self.inline(ckey):
                             cf = self.facts.fn_opt(ckey)
@@ -921,6 +969,7 @@ class Interp:
                                 ca = fargs
                                 if f.get("trait", "").startswith("core::ops::function") and len(fargs) == 2 and isinstance(fargs[1], Agg) and fargs[1].kind == "tuple":
                                     ca = [fargs[0]] + list(fargs[1].fields)   # rust-call ABI: (env, (a, b, ..))
+                                self._call_gargs = self._inst_gargs
                                 outs = self.call_body(cf, ca)
                         if outs is None and f.get("kind") == "def" and f.get("name") in ("call_once", "call_mut", "call") and f.get("trait", "").startswith("core::ops::function") and args:
                             outs = self.call_value(fargs[0], fargs[1:], rust_call=True)
@@ -1097,6 +1146,22 @@ def std_oracle(interp, env, f, args, t, bb, path):
         if isinstance(v, Agg) and v.name == "core::option::Option":
             return ok(v.fields[0]) if v.variant == "Some" else err(TOP)
         return TOP
+    if key in ("core::mem::drop", "core::mem::forget"):
+        return Agg("tuple", None, None, [])
+    if key == "core::default::Default::default" and not args:
+        rt = f.get("ret") or (f.get("gargs") or [""])[0]
+        if rt in ("usize", "u8", "u16", "u32", "u64", "u128", "isize", "i8", "i16", "i32", "i64", "i128"):
+            return 0
+        if rt in ("f64", "f32"):
+            return 0.0
+        if rt == "bool":
+            return False
+        if rt == "()":
+            return Agg("tuple", None, None, [])
+        if rt.startswith("core::option::Option<"):
+            return NONE
+        if rt.startswith("core::marker::PhantomData<"):
+            return Agg("adt", "core::marker::PhantomData", "PhantomData", [])
     if key in ("core::option::Option::replace", "core::option::Option::take", "core::mem::take") and isinstance(a0, (Ref, HRef)):
         old = deref(a0)
         if isinstance(old, Agg) and old.name == "core::option::Option":
@@ -1109,9 +1174,19 @@ def std_oracle(interp, env, f, args, t, bb, path):
             return old
         return TOP
     if key in ("core::option::Option::as_ref", "core::option::Option::as_mut", "core::option::Option::as_deref", "core::option::Option::as_deref_mut"):
-        return deref(a0)
+        v = deref(a0)
+        if key.endswith(("as_ref", "as_mut")) and isinstance(a0, (Ref, HRef)) and isinstance(v, Agg) and v.name == "core::option::Option" and v.variant == "Some" \
+                and v.fields and not isinstance(v.fields[0], (Ref, HRef)):
+            # Some(&mut payload): a reference INTO the option, so that writes through it reach the option's owner
+            if isinstance(a0, Ref):
+                return some(Ref(a0.local, list(a0.proj) + [["d", 1, "Some"], ["f", 0, None]], frame=a0.frame))
+            return some(HRef(a0.vid, a0.idx, tuple(a0.proj) + (("d", 1, "Some"), ("f", 0, None))))
+        return v
     if key in ("core::convert::Into::into", "core::convert::From::from") and (f.get("gargs") or [None, None])[0] == (f.get("gargs") or [None, None])[-1]:
         return a0
+    if key in ("core::convert::Into::into", "core::convert::From::from") and args and \
+            ((f.get("gargs") or [""])[-1] if key.endswith("into") else (f.get("gargs") or [""])[0]) in ("eyre::Report", "color_eyre::Report", "eyre::Report<eyre::DefaultHandler>"):
+        return a0       # error conversions keep the payload (like `?` does in this model)
     if key in ("core::convert::Into::into", "core::convert::From::from") and isinstance(a0, (int, float)) and not isinstance(a0, bool):
         dst = (f.get("gargs") or [""])[-1] if key.endswith("into") else (f.get("gargs") or [""])[0]
         return float(a0) if dst in ("f64", "f32") else a0
